@@ -1,5 +1,5 @@
 ----------------------------- MODULE MC_Listing -----------------------------
 EXTENDS Listing
-MCFiles3 == {[name |-> n, kind |-> k, sel |-> s] : n \in 1..3, k \in {"pel", "junkH", "junkB"}, s \in BOOLEAN}
+MCFiles3 == {[name |-> n, kind |-> k, sel |-> s] : n \in 1..3, k \in {"pel", "junkH", "junkB", "junkO"}, s \in BOOLEAN}
 MCFiles == {[name |-> n, kind |-> k, sel |-> s] : n \in 1..4, k \in {"pel", "junkH", "junkB"}, s \in BOOLEAN}
 =============================================================================
